@@ -2697,3 +2697,106 @@ Proof.
   rewrite ops_len_cons. destruct o; try (apply IH in P1; lia).
   destruct P1 as [P1|P1]; [injection P1 as _ <-; lia|apply IH in P1; cbn [op_bytes] in *; lia].
 Qed.
+
+(* ------------------------------------------------------------------ Unit::write as a whole *)
+
+Lemma repeat_zero_nth n j y : nth_error (repeat 0 n) j = Some y -> y = 0.
+Proof. intros H. apply nth_error_In in H. now apply repeat_spec in H. Qed.
+
+Lemma ops_len_ops_bytes ops : UnitWr.blen (ops_bytes ops) = ops_len ops.
+Proof. reflexivity. Qed.
+
+Theorem unit_write_roundtrip_lemma dbg be uidx u p lstr str info abbrev_off out :
+  unit_write dbg be uidx u p lstr str info abbrev_off = Ok out ->
+  exists ents1 ents2 root st line rng loc hdr,
+    (* the tree: root attributes adjusted for DW_AT_stmt_list, base types first *)
+    reorder_base_types ents1 = Ok ents2 /\ length ents1 = length (u_entries u) /\
+    tree_of (S (length ents2)) ents2 0 = Ok root /\
+    let e := u_enc u in
+    let pos0 := UnitWr.blen info + UnitWr.blen hdr in
+    let cx := mkWcx e be uidx (UnitWr.blen info) (cs_entries st) (cs_codes st) line lstr str rng loc in
+    calc dbg e root (mkCst pos0 (repeat 0 (length ents2)) [] (repeat 0 (length ents2))) = Ok st /\
+    uo_entries out = cs_entries st /\ uo_abbrevs out = cs_abbrevs st /\ uo_unit_off out = UnitWr.blen info /\
+    (NoDup (die_ids root) -> die_expr_ok root -> die_decodable root -> UnitWr.blen (uo_info out) < 2 ^ 64 ->
+     forall f : eid -> list byte,
+       (forall id b, ref_value dbg be uidx (UnitWr.blen info) (cs_entries st) (wsz e) id = Some b -> f id = b) ->
+       (forall id, UnitWr.blen (f id) = wsz e) ->
+     exists ops hdr' sd,
+       write_die dbg cx root pos0 = Ok ops /\
+       uo_info out = info ++ hdr' ++ ops_resolved f ops /\ UnitWr.blen hdr' = UnitWr.blen hdr /\
+       uo_fixups out = ops_fixups pos0 ops /\
+       decode_die (S (length (ops_bytes ops))) e be (cs_abbrevs st) pos0 (ops_resolved f ops) = Some (sd, []) /\
+       dmatch cx f root pos0 (pos0 + ops_len ops) sd /\
+       (forall i q, In (i, q) (ops_marks pos0 ops) -> nth_error (uo_entries out) i = Some q) /\
+       (forall id w', In (WUnitRef id w') ops ->
+          exists q, In (id_idx id, q) (ops_marks pos0 ops) /\ fixed_num be (f id) = q - UnitWr.blen info)).
+Proof.
+  unfold unit_write. intros H.
+  apply bind_ok_inv in H. destruct H as [ents1 [E1 H]].
+  apply bind_ok_inv in H. destruct H as [line [Eline H]].
+  apply bind_ok_inv in H. destruct H as [len0 [Elen0 H]].
+  apply bind_ok_inv in H. destruct H as [hdrr [Ehdr H]].
+  apply bind_ok_inv in H. destruct H as [ents2 [E2 H]].
+  apply bind_ok_inv in H. destruct H as [root [Eroot H]].
+  apply bind_ok_inv in H. destruct H as [st [Est H]].
+  apply bind_ok_inv in H. destruct H as [rng [Erng H]].
+  apply bind_ok_inv in H. destruct H as [loc [Eloc H]].
+  apply bind_ok_inv in H. destruct H as [ops [Eops H]].
+  apply bind_ok_inv in H. destruct H as [u0 [Eres H]].
+  apply bind_ok_inv in H. destruct H as [sec2 [Esec2 H]].
+  apply bind_ok_inv in H. destruct H as [sec3 [Esec3 H]]. injection H as <-.
+  cbn [uo_info uo_fixups uo_unit_off uo_entries uo_abbrevs].
+  set (e := u_enc u) in *. set (w := wsz e) in *.
+  set (esc := if e_fmt64 e then enc_un 4 be 4294967295 else []) in *.
+  set (hdr := esc ++ len0 ++ enc_un 2 be (e_ver e) ++ hdrr) in *.
+  exists ents1, ents2, root, st, line, rng, loc, hdr.
+  split; [exact E2|]. split.
+  { clear - E1. revert E1. generalize (u_entries u) as l. intros l.
+    destruct l as [|x r]; cbn [upd_nth]; [discriminate|]. intros H. injection H as <-. reflexivity. }
+  split; [exact Eroot|]. cbv zeta.
+  split; [exact Est|]. split; [reflexivity|]. split; [reflexivity|]. split; [reflexivity|].
+  intros ND HX HD HB f Hf Hfl.
+  set (pos0 := UnitWr.blen info + UnitWr.blen hdr) in *.
+  set (cx := mkWcx e be uidx (UnitWr.blen info) (cs_entries st) (cs_codes st) line lstr str rng loc) in *.
+  (* the length patch rewrites only the placeholder in the header *)
+  unfold write_udata_at in Esec2. apply bind_ok_inv in Esec2. destruct Esec2 as [lenb [Elenb Esec2]].
+  assert (Llen0 : UnitWr.blen len0 = w) by (eapply write_udata_len; eassumption).
+  assert (Llenb : UnitWr.blen lenb = w) by (eapply write_udata_len; eassumption).
+  assert (Esec1 : info ++ hdr ++ ops_bytes ops =
+                  (info ++ esc) ++ len0 ++ (enc_un 2 be (e_ver e) ++ hdrr ++ ops_bytes ops)).
+  { unfold hdr. now rewrite <- !app_assoc. }
+  rewrite Esec1 in Esec2.
+  replace (UnitWr.blen info + UnitWr.blen esc) with (UnitWr.blen (info ++ esc)) in Esec2 by apply blen_app.
+  rewrite write_at_app in Esec2 by (unfold UnitWr.blen in *; lia). injection Esec2 as <-.
+  set (hdr' := esc ++ lenb ++ enc_un 2 be (e_ver e) ++ hdrr).
+  assert (Lh : UnitWr.blen hdr' = UnitWr.blen hdr) by (unfold hdr', hdr; rewrite !blen_app; lia).
+  assert (Esec2' : (info ++ esc) ++ lenb ++ enc_un 2 be (e_ver e) ++ hdrr ++ ops_bytes ops =
+                   (info ++ hdr') ++ ops_bytes ops ++ []).
+  { unfold hdr'. now rewrite app_nil_r, <- !app_assoc. }
+  rewrite Esec2' in Esec3.
+  assert (Lpre : UnitWr.blen (info ++ hdr') = pos0) by (rewrite blen_app, Lh; reflexivity).
+  (* size of the section after the unit *)
+  assert (Hlen3 : UnitWr.blen sec3 = UnitWr.blen (info ++ hdr') + ops_len ops).
+  { clear - Esec3. set (pre := info ++ hdr') in *. set (refs := ops_unit_refs pos0 ops) in *.
+    assert (G : forall refs s s', patch_unit_refs dbg be uidx (UnitWr.blen info) (cs_entries st) w refs s = Ok s' ->
+                                  UnitWr.blen s' = UnitWr.blen s).
+    { induction refs0 as [|[o i] r IH]; intros s s' H; cbn [patch_unit_refs] in H; [now injection H as <-|].
+      binds. rewrite (IH _ _ H). unfold write_udata_at in *. binds. unfold write_at in *.
+      destruct (UnitWr.blen s <? o) eqn:L1; [discriminate|]. destruct (UnitWr.blen s - o <? UnitWr.blen a2) eqn:L2; [discriminate|].
+      match goal with E : Ok _ = Ok _ |- _ => injection E as <- end.
+      apply N.ltb_ge in L1. apply N.ltb_ge in L2.
+      unfold UnitWr.blen in *. rewrite !app_length, firstn_length, skipn_length. lia. }
+    rewrite (G _ _ _ Esec3). rewrite !blen_app. rewrite blen_nil. unfold ops_len. lia. }
+  assert (HB' : pos0 + ops_len ops < 2 ^ 64) by (rewrite <- Lpre, <- Hlen3; exact HB).
+  destruct (roundtrip_lemma dbg cx root (mkCst pos0 (repeat 0 (length ents2)) [] (repeat 0 (length ents2))) st ops
+              (info ++ hdr') [] sec3 f (S (length (ops_bytes ops))) []) as [sd [R1 [R2 [R3 R4]]]];
+    try assumption; try reflexivity.
+  { intros j y Hj. cbn [cs_entries] in Hj. eapply repeat_zero_nth; eassumption. }
+  { cbn [cs_off wc_unit_off cx]. unfold pos0. lia. }
+  { unfold ops_len, UnitWr.blen. lia. }
+  destruct (offsets_exact_lemma dbg cx root _ st ops Est eq_refl Eops ND HX HB') as [_ [_ O3]].
+  exists ops, hdr', sd. split; [exact Eops|]. split; [rewrite R1, app_nil_r, <- app_assoc; reflexivity|].
+  split; [exact Lh|]. split; [reflexivity|]. rewrite app_nil_r in R2. split; [exact R2|]. split; [exact R3|].
+  split; [exact O3|].
+  intros id w' Hi. destruct (R4 _ _ Hi) as [q [Q1 [_ Q3]]]. exists q. split; [exact Q1|exact Q3].
+Qed.
